@@ -12,6 +12,8 @@
   Import-free (apart from Std.HashMap through Ctx).
 -/
 import Tulisp.Model.Printer
+import Tulisp.Model.Sort
+import Tulisp.Model.Table
 namespace Tulisp
 
 structure Rec where
@@ -197,13 +199,24 @@ def isZeroNum : Val → Bool
   | .float b => f64 b == 0.0
   | _ => false
 
-/-- the comparison chains, after all arguments have been evaluated -/
-def cmpChain (op : CmpOp) : List Val → M Val
-  | a :: b :: rest => do
-    let x ← numOf a
-    let y ← numOf b
-    if cmpNum op x y then cmpChain op (b :: rest) else pure .nil
-  | _ => pure .t
+/-- adjacent pairs of a chain of numbers -/
+def chainHolds (op : CmpOp) : List Num → Bool
+  | a :: b :: rest => cmpNum op a b && chainHolds op (b :: rest)
+  | _ => true
+
+def allNums : List Val → Option (List Num)
+  | [] => some []
+  | v :: vs => do
+    let n ← v.toNum?
+    let ns ← allNums vs
+    pure (n :: ns)
+
+/-- the comparison chains, after all arguments have been evaluated: every argument has to be
+    a number; the chain holds when every adjacent pair does -/
+def cmpChain (op : CmpOp) (vals : List Val) : M Val :=
+  match allNums vals with
+  | some ns => pure (ofBool (chainHolds op ns))
+  | none => M.throw .typeMismatch
 
 /-! ## strings, format -/
 
@@ -451,23 +464,6 @@ def markClauses (fname : Nat) : Nat → Val → M Val
     mkCons cl' rest'
   | _ + 1, _ => pure .nil
 end
-
-/-! ## hash tables -/
-
-def tableGet (c : Ctx) (id : Nat) : List (Val × Val) :=
-  match c.tables.find? (·.1 == id) with
-  | some (_, l) => l
-  | none => []
-
-def tablePut (c : Ctx) (id : Nat) (k v : Val) : Ctx :=
-  let l := tableGet c id
-  let l' := (k, v) :: l.filter (fun (k', _) => !eqlV k' k)
-  { c with tables := (id, l') :: c.tables.filter (·.1 != id) }
-
-def tableLookup (c : Ctx) (id : Nat) (k : Val) : Val :=
-  match (tableGet c id).find? (fun (k', _) => eqlV k' k) with
-  | some (_, v) => v
-  | none => .nil
 
 /-! ## argument extraction of `#[crate_fn]` built-ins -/
 
@@ -737,31 +733,6 @@ def letBind (r : Rec) : Val → List Nat → M (List Nat)
         | _ => letBind r rest done
     | _ => onFail (M.throw .syntaxError) undo
   | _, done => pure done
-
-/-- stable merge of `sort` (see src/builtin/functions/sequences.rs after the fix):
-    take from the right only when `(pred r l)` is non-nil. -/
-def mergeM (lt : Val → Val → M Bool) : List Val → List Val → Nat → M (List Val)
-  | _, _, 0 => M.outOfFuel
-  | [], rs, _ => pure rs
-  | ls, [], _ => pure ls
-  | l :: ls, r' :: rs, k + 1 => do
-    if (← lt r' l) then do
-      let rest ← mergeM lt (l :: ls) rs k
-      pure (r' :: rest)
-    else do
-      let rest ← mergeM lt ls (r' :: rs) k
-      pure (l :: rest)
-
-/-- merge sort: right half first, then left half, then merge -/
-def sortM (lt : Val → Val → M Bool) : Nat → List Val → M (List Val)
-  | 0, _ => M.outOfFuel
-  | k + 1, xs =>
-    if xs.length < 2 then pure xs
-    else do
-      let h := (xs.length + 1) / 2
-      let right ← sortM lt k (xs.drop h)
-      let left ← sortM lt k (xs.take h)
-      mergeM lt left right (xs.length + 1)
 
 /-- A built-in function / special form applied to its unevaluated argument list. -/
 def callBuiltin (r : Rec) (b : Bi) (args : Val) : M Val :=
